@@ -63,6 +63,10 @@ func runC19(c *Ctx) {
 		addrs := make([]string, nAddr)
 		for k := range addrs {
 			addrs[k] = fmt.Sprintf("10.%d.%d.%d:8091", (i>>8)&255, i&255, k+1)
+			if i%5 == 4 {
+				// servers on one host whose addresses are textual prefixes of one another (809, 8091, 80910)
+				addrs[k] = fmt.Sprintf("10.%d.%d.1:%s", (i>>8)&255, i&255, []string{"8091", "809", "80910"}[k])
+			}
 		}
 		nextID := 0
 		policy := c19Policies[r.Intn(len(c19Policies))]
